@@ -331,12 +331,13 @@ def rule_exhaust(ctx, funcs=None, R="R-C04-EXHAUST"):
             probs.append("unconditional `break` in a candidate loop")
             continue
           gt = norm(guard)
-          if is_success_test(guard):
+          conj = guard_conjuncts(node, par, loops[0])
+          if any(is_success_test(c_) for c_ in conj):
             continue
           blk = block_of(node, par)
           if blk is not None and any(is_success_stmt(s_) for s_ in blk[:blk.index(node)]):
             continue
-          if (f.where, gt) in CUTOFFS:
+          if any((f.where, t_) in CUTOFFS for c_ in conj for t_ in canon_texts(c_)):
             continue
           probs.append("`break` under `%s` leaves a candidate loop without success and is not a documented cut-off" % gt)
     ctx.record(R, f.where, "no premature give-up", not probs, "; ".join(sorted(set(probs))) or
@@ -351,6 +352,39 @@ def enclosing_guard(node, par, loop):
       return p.test
     x = p
   return None
+
+
+def guard_conjuncts(node, par, loop):
+  """Atomic conditions that all hold where `node` runs, collected from every enclosing `if` (body side) up to the loop, `and` split up."""
+  out = []
+  x = node
+  while id(x) in par and par[id(x)] is not loop:
+    p = par[id(x)]
+    if isinstance(p, ast.If) and x in p.body:
+      todo = [p.test]
+      while todo:
+        t = todo.pop()
+        if isinstance(t, ast.BoolOp) and isinstance(t.op, ast.And):
+          todo.extend(t.values)
+        else:
+          out.append(t)
+    x = p
+  return out
+
+
+SWAP = {ast.Lt: ast.Gt, ast.Gt: ast.Lt, ast.LtE: ast.GtE, ast.GtE: ast.LtE, ast.Eq: ast.Eq, ast.NotEq: ast.NotEq}
+NEGATE = {ast.Lt: ast.GtE, ast.GtE: ast.Lt, ast.Gt: ast.LtE, ast.LtE: ast.Gt, ast.Eq: ast.NotEq, ast.NotEq: ast.Eq}
+
+
+def canon_texts(t):
+  """Equivalent spellings of one comparison: as written, operands swapped, and `not (a op b)` resolved."""
+  if isinstance(t, ast.UnaryOp) and isinstance(t.op, ast.Not) and isinstance(t.operand, ast.Compare) and len(t.operand.ops) == 1 and type(t.operand.ops[0]) in NEGATE:
+    t = ast.Compare(left=t.operand.left, ops=[NEGATE[type(t.operand.ops[0])]()], comparators=t.operand.comparators)
+  out = [norm(t)]
+  if isinstance(t, ast.Compare) and len(t.ops) == 1 and type(t.ops[0]) in SWAP:
+    sw = ast.Compare(left=t.comparators[0], ops=[SWAP[type(t.ops[0])]()], comparators=[t.left])
+    out.append(norm(ast.fix_missing_locations(sw)))
+  return out
 
 
 def block_of(node, par):
